@@ -615,7 +615,8 @@ func setNthValue(ctx context.Context, scope *ReferenceScope, partition Partition
 
 	anScope := scope.CreateScopeForAnalytics()
 	for _, frame := range frameSet {
-		var val value.Primary = value.NewNull()
+		var val value.Primary
+		var nth value.Primary = value.NewNull()
 		count := 0
 
 		for i := frame.Low; i <= frame.High; i++ {
@@ -641,12 +642,13 @@ func setNthValue(ctx context.Context, scope *ReferenceScope, partition Partition
 
 			count++
 			if count == n {
+				nth = val
 				break
 			}
 		}
 
 		for _, idx := range frame.Records {
-			list[idx] = val
+			list[idx] = nth
 		}
 	}
 
